@@ -1,4 +1,6 @@
 SPECIFICATION Spec
 INVARIANT AssemblyResolves
+INVARIANT ChemFormAttachesGases
+INVARIANT FittingWellFormed
 CONSTRAINT Emit
 CHECK_DEADLOCK FALSE
